@@ -85,6 +85,12 @@ type c05env struct {
 	en *an.H05
 	// helpers found to build the Msg returned by newMsg (their field provenance is checked with it)
 	builders []c05builder
+	// helpers newMsg hands its whole job to (c05n5_delegate.go) and the parameter values known in the
+	// activation being checked
+	delegates []c05delegate
+	bind      an.H05Env
+	tag       string
+	vague     bool // a parameter of the activation being checked has a value the checker knows nothing about
 }
 
 // c05builder is a call of a helper that builds a Msg from a wire message: callee and argument terms.
@@ -1494,6 +1500,16 @@ func c05NewMsgProvenance(e *c05env) {
 	}
 	roles := c05MsgFieldRole(e)
 	for _, ret := range rets {
+		c05MsgBuiltAt(e, st, roles, root, ret, pbT, justT, valsT, 0)
+	}
+}
+
+// c05MsgBuiltAt checks the provenance of the Msg yielded by the successful return ret of the activation root
+// (newMsg itself, or — depth > 0 — a helper newMsg hands its whole job to: `return build(pb, just, values, …)`).
+func c05MsgBuiltAt(e *c05env, st *types.Struct, roles map[string]string, root *an.H05Frame, ret *ssa.Return, pbT, justT, valsT *an.H05Term, depth int) {
+	c := e.c
+	en := e.engine()
+	{
 		if len(ret.Results) != 2 {
 			c.Bail("newMsg: unexpected result count")
 		}
@@ -1519,6 +1535,9 @@ func c05NewMsgProvenance(e *c05env) {
 			if n != 1 {
 				lit = nil
 			}
+		}
+		if lit == nil && c05Delegated(e, st, roles, root, ret, pbT, justT, valsT, depth) {
+			return
 		}
 		if lit == nil {
 			c.Bail("newMsg: a successful return does not yield a Msg built in newMsg itself")
@@ -1553,7 +1572,7 @@ func c05NewMsgProvenance(e *c05env) {
 			if r, ok := roles[name]; ok {
 				name = r // the rule talks about the field's role; the report names it by its conventional name
 			}
-			key := "newMsg Msg." + name + " provenance"
+			key := "newMsg Msg." + name + " provenance" + e.tag
 			if len(fs) == 0 {
 				c.Good(key, posOf(ret), "field is left at its zero value: carries nothing from the wire")
 				continue
@@ -1566,11 +1585,11 @@ func c05NewMsgProvenance(e *c05env) {
 			case "justificationProtos":
 				same(key, fs, justT, "Msg.justificationProtos is not the (verified) justification parameter")
 			case "valueHash":
-				c05Report(c, key, posOf(ret), c05HashProv(e, root, ret, acc, fs, "ValueHash", pbT, valsT), "")
+				c05Report(c, key, posOf(ret), e.hedge(c05HashProv(e, root, ret, acc, fs, "ValueHash", pbT, valsT)), "")
 			case "preparedValueHash":
-				c05Report(c, key, posOf(ret), c05HashProv(e, root, ret, acc, fs, "PreparedValueHash", pbT, valsT), "")
+				c05Report(c, key, posOf(ret), e.hedge(c05HashProv(e, root, ret, acc, fs, "PreparedValueHash", pbT, valsT)), "")
 			case "justification":
-				c05Report(c, key, posOf(ret), c05JustProv(e, root, ret, acc, lit, fieldName, fs, pbT, justT, valsT), "")
+				c05Report(c, key, posOf(ret), e.hedge(c05JustProv(e, root, ret, acc, lit, fieldName, fs, pbT, justT, valsT)), "")
 			default:
 				c.Unsure(key, posOf(ret), "new field of qbft.Msg without a provenance rule")
 			}
@@ -1633,7 +1652,7 @@ func c05HashProv(e *c05env, root *an.H05Frame, ret *ssa.Return, acc an.H05Accept
 			tru, fls := an.H05ConstAbs(constant.MakeBool(true)), an.H05ConstAbs(constant.MakeBool(false))
 			// with ok == false the non-zero value must not be selected
 			if o.Site != nil && o.Site.Parent() == tf.Fn && o.Site != site {
-				if reach, _ := en.ReachUnder(call, o.Site, an.H05Env{okv: fls}, nil); reach && o.Site.Block() != call.Block() {
+				if reach, _ := en.ReachUnder(call, o.Site, e.bound(an.H05Env{okv: fls}), nil); reach && o.Site.Block() != call.Block() {
 					return an.H05Verdict{Why: "hash is used although toHash32 reported it invalid"}
 				}
 			}
@@ -1644,7 +1663,7 @@ func c05HashProv(e *c05env, root *an.H05Frame, ret *ssa.Return, acc an.H05Accept
 				if !ok || !an.H05Same(en.Term(lk.X, tf), valsT) || !an.H05Same(en.Term(lk.Index, tf), t) {
 					continue
 				}
-				env := an.H05Env{okv: tru}
+				env := e.bound(an.H05Env{okv: tru})
 				if lk.CommaOk {
 					found := c05Extract(lk, 1)
 					if found == nil {
@@ -1662,7 +1681,7 @@ func c05HashProv(e *c05env, root *an.H05Frame, ret *ssa.Return, acc an.H05Accept
 				case lk.Block() == call.Block() && an.Dominates(call, lk): // nothing between the two
 				case lk.Block() == site.Block() && an.Dominates(lk, site): // the commit point lies behind the lookup in its block
 				default:
-					r2, imp2 = en.ReachUnderAvoiding(call, site, an.H05Env{okv: tru}, sacc, lk.Block())
+					r2, imp2 = en.ReachUnderAvoiding(call, site, e.bound(an.H05Env{okv: tru}), sacc, lk.Block())
 				}
 				imp1 = imp1 || upImp
 				if !r1 && !r2 {
@@ -1744,6 +1763,9 @@ func c05JustProv(e *c05env, root *an.H05Frame, ret *ssa.Return, acc an.H05Accept
 			}
 			qs = append(qs, c05CallQ(b.name, an.H05ErrNil, "no conversion of the justification in the loop", args...))
 		}
+		for _, d := range e.delegates {
+			qs = append(qs, c05CallQ(d.name, an.H05ErrNil, "no conversion of the justification in the loop", d.argsFor(elem, valsT)...))
+		}
 		if len(qs) == 1 {
 			return qs[0]
 		}
@@ -1766,6 +1788,17 @@ func c05JustProv(e *c05env, root *an.H05Frame, ret *ssa.Return, acc an.H05Accept
 			}
 			if !an.H05Same(call.Args[2], valsT) {
 				return false, "justification Msg is built with a different values map"
+			}
+			return true, ""
+		}
+		for _, d := range e.delegates {
+			if call.Name != d.name || len(call.Args) != len(d.role) {
+				continue
+			}
+			for i, w := range d.argsFor(elem, valsT) {
+				if w != nil && !an.H05Same(call.Args[i], w) {
+					return false, "justification Msg is not built from the element of the justification parameter and the same values map"
+				}
 			}
 			return true, ""
 		}
